@@ -6,7 +6,7 @@
    the end of the slice is `Panic WOobRead`.  `C10_total_<f>` says no argument produces a Panic.  Where the code does panic the
    full statement would be kept restricted to `~ Known` (a decidable input class) next to a `_refuted` witness — at present no such
    restriction is left: the model follows the repaired library, F1 (a4bc64e), F2 (4b01389), F12 (8d5600e), F16 (c723f02), F18 (838e50c),
-   F17 (8ea09fb, saturating fee sums) and F19 (fc1698d, read_uint size bound) are fixed and every `C10_total_*` statement is unconditional.
+   F17 (7b7cbe8, saturating fee sums) and F19 (6050d64, read_uint size bound) are fixed and every `C10_total_*` statement is unconditional.
    The allocation clause: `rsv` counts the bytes the decoders' own `vec![0; s]` / `Vec::with_capacity(len)` reserve; the bound is
    K + k * |input| with K = one MAX_VEC_SIZE per nesting level of length-prefixed vectors (3 for a block): the reservation is NOT
    proportional to the input — a 5-byte input can reserve MAX_VEC_SIZE bytes — it is bounded by that constant plus a linear term. *)
@@ -74,7 +74,7 @@ Proof. intros maxvec bs w H. pose proof (proj1 (key_dec_total maxvec bs)) as T. 
 Theorem C10_total_instructions : forall (minimal : bool) (s : bytes) (i : Script.item),
   In i (instructions minimal s) -> match i with IPanic _ | IFuel => False | _ => True end.
 Proof. exact instructions_clean. Qed.
-(* read_uint (F19, repaired by fc1698d): total for every size in both profiles; up to 8 bytes it is the function of Model/Script.v
+(* read_uint (F19, repaired by 6050d64): total for every size in both profiles; up to 8 bytes it is the function of Model/Script.v
    (Instructions::next uses 1, 2, 4), beyond that the error NumericOverflow *)
 Theorem C10_total_read_uint : forall p data size w, read_uint_p p data size <> Panic w.
 Proof. exact read_uint_p_total. Qed.
@@ -172,7 +172,7 @@ Proof. exact minimum_value_p_total. Qed.
 Example C10_minimum_value_needs_the_library_bound : minimum_value_conf false (x60 :: repeat x00 8) = Panic WSlice.
 Proof. reflexivity. Qed.
 
-(* fee_in / all_fees (F17, repaired by 8ea09fb): never a panic, in either profile; the result is the true sum of the asset's fee outputs
+(* fee_in / all_fees (F17, repaired by 7b7cbe8): never a panic, in either profile; the result is the true sum of the asset's fee outputs
    capped at u64::MAX — exact for every sum below 2^64 *)
 Theorem C10_total_fee_in : forall outs asset, fee_in outs asset = Val (N.min (fold_right N.add 0 (map snd (filter (fun o => fst o =? asset) outs))) U64_MAX).
 Proof. exact fee_in_spec. Qed.
